@@ -300,86 +300,41 @@ def find_template(facts):
 
 
 def r4_find(res, facts):
-    r = res.rule('C10-R4', 'findTemplate: the quiet branch takes the first matching entry of the sorted vector; the conflict-reporting branch ranks matching entries by '
-                 'getPriorityOrDefault() — the key the vectors are sorted by — and takes the first of the best, so reporting conflicts cannot change the choice; '
-                 'imports are consulted only when no entry of this stylesheet matched', floor=5)
+    """Which entry of the look-up list findTemplate returns (first match in the quiet branch, rank by getPriorityOrDefault and first of the best in the reporting branch) was decided
+    here on the shape of the two loops, by the names of their locals; C10-R12 decides it by value now (findTemplate interpreted, both branches), so this rule keeps only what R12
+    does not reach: the imports."""
+    r = res.rule('C10-R4', 'findTemplate: imports are consulted only when no entry of this stylesheet matched - in both branches every call of findTemplateInImports is dominated by '
+                 '"the rule to be returned is still null" (the choice among the entries of one stylesheet is C10-R12\'s)', floor=2)
     a = find_template(facts)
-    # split on the getQuietConflictWarnings() test
-    top = None
-    for x in walk(a['body']):
-        if x['k'] == 'If' and 'getQuietConflictWarnings' in pp(x['cond']):
-            top = x
-    if top is None or top.get('else') is None:
-        raise AnalysisBroken('findTemplate: the getQuietConflictWarnings() branch is gone')
-    core, eff = common.norm_atom(top['cond'], True)
-    quiet, loud = (top['then'], top['else']) if eff else (top['else'], top['then'])
-    # quiet: a loop over the vector; on a match: bestMatchedRule = rule; break
-    loops = [x for x in walk(quiet) if x['k'] in ('While', 'For', 'Do')]
-    if not loops:
-        r.violation('findTemplate quiet branch', 'no loop over the pattern vector', common.file_line(a, quiet))
-    else:
-        lp = loops[0]
-        assigns = [x for x in walk(lp['body']) if x['k'] == 'Bin' and x['op'] == '=' and pp(strip_casts(x['lhs'])) == 'bestMatchedRule']
+    ret_ids = {strip_casts(x['e']).get('id') for x in walk(a['body']) if x['k'] == 'Return' and x.get('e') is not None and (strip_casts(x['e']) or {}).get('k') == 'Ref'
+               and (strip_casts(x['e']) or {}).get('d') == 'local'}
+    if not ret_ids:
+        raise AnalysisBroken('findTemplate: no local is returned')
+    cfg = CFG(a)
+    must = common.must_conds(cfg)
+    sites = common.find_call_nodes(cfg, 'findTemplateInImports')
+    n_guarded = 0
+    for n, c in sites:
+        if n.kind == 'stmt' and n.ast is not None and n.ast.get('k') == 'Return':
+            r.ok('findTemplate: the apply-imports entry (onlyUseImports) goes to the imports directly')
+            continue
         ok = False
-        for x in walk(lp['body']):
-            if x['k'] == 'If' and 'eMatchScoreNone' in pp(x['cond']) and 'score' in pp(x['cond']):
-                stmts = x['then']['c'] if x['then']['k'] == 'Compound' else [x['then']]
-                kinds = [s['k'] for s in stmts]
-                if len(assigns) == 1 and any(s is assigns[0] or assigns[0] in list(walk(s)) for s in stmts) and kinds and kinds[-1] == 'Break':
-                    ok = True
+        for at, br in must.get(n.id, []):
+            core, eff = common.norm_atom(at, br)
+            if core is not None and core.get('k') == 'Bin' and core['op'] in ('==', '!='):
+                l, rr = strip_casts(core['lhs']), strip_casts(core['rhs'])
+                for v, z in ((l, rr), (rr, l)):
+                    if v is not None and v.get('k') == 'Ref' and v.get('id') in ret_ids and z is not None and (z.get('cv') == 0 or z.get('k') == 'Nullptr'):
+                        if (core['op'] == '==') == eff:
+                            ok = True
         if ok:
-            r.ok('findTemplate quiet branch: first matching entry is taken (assignment followed by break)')
+            n_guarded += 1
+            r.ok('findTemplate: imports consulted only when no rule of this stylesheet matched (call %d)' % n_guarded)
         else:
-            r.violation('findTemplate quiet branch', 'the first matching entry is not what the loop returns (bestMatchedRule assigned %d times, or no break after the match)' % len(assigns), common.file_line(a, lp))
-        it0 = [x for x in walk(quiet) if x['k'] == 'Decl' and any('begin()' in pp(v.get('init')) for v in x.get('vars', []) if v.get('init') is not None)]
-        if it0:
-            r.ok('findTemplate quiet branch: iteration starts at begin()')
-        else:
-            r.violation('findTemplate quiet branch: start', 'the walk does not start at begin() of the vector', common.file_line(a, quiet))
-    # loud: the value compared against the best so far
-    cmp_vars = set()
-    for x in walk(loud):
-        if x['k'] == 'If':
-            c = strip_casts(x['cond'])
-            if isinstance(c, dict) and c.get('k') == 'Bin' and c['op'] in ('>', '==') and 'priorityOfBestMatched' in pp(c):
-                other = c['lhs'] if 'priorityOfBestMatched' in pp(c['rhs']) else c['rhs']
-                o = strip_casts(other)
-                if o.get('k') == 'Ref':
-                    cmp_vars.add((o['n'], o.get('id')))
-    if not cmp_vars:
-        raise AnalysisBroken('findTemplate: comparison against priorityOfBestMatched not found in the conflict-reporting branch')
-    for nm, vid in sorted(cmp_vars):
-        init = None
-        for x in walk(loud):
-            if x['k'] == 'Decl':
-                for v in x.get('vars', []):
-                    if v['id'] == vid:
-                        init = v.get('init')
-        site = 'findTemplate conflict branch: rank of a matching entry (%s)' % nm
-        txt = pp(init) if init is not None else '?'
-        src = strip_casts(init) if init is not None else None
-        if isinstance(src, dict) and src.get('k') == 'MCall' and src.get('n') == 'getPriorityOrDefault' and pp(strip_casts(src.get('obj'))) == 'matchPat':
-            r.ok(site, txt)
-        else:
-            r.violation(site, 'entries are ranked by %s, but the vectors are sorted by matchPat->getPriorityOrDefault(): the rule chosen depends on whether conflicts are reported' % txt[:120], common.file_line(a, init))
-    # conflicts[0] is taken
-    took = [x for x in walk(loud) if x['k'] == 'Bin' and x['op'] == '=' and pp(strip_casts(x['lhs'])) == 'bestMatchedPattern' and pp(strip_casts(x['rhs'])).startswith('conflicts[')]
-    if took and pp(strip_casts(took[-1]['rhs'])) == 'conflicts[0]':
-        r.ok('findTemplate conflict branch: first of the equally ranked entries (conflicts[0])')
-    else:
-        r.violation('findTemplate conflict branch: choice among equals', 'the entry chosen among equally ranked ones is %s, not the first in vector order' % (pp(took[-1]['rhs']) if took else 'not conflicts[..]'), common.file_line(a))
-    # imports only if nothing matched
-    for nm, br in (('quiet', quiet), ('conflict', loud)):
-        ok = False
-        for x in walk(br):
-            if x['k'] == 'If' and any((cc.get('n') or '') == 'findTemplateInImports' for cc in calls(x['then'])):
-                c, e = common.norm_atom(x['cond'], True)
-                if pp(c) in ('(0 == bestMatchedRule)', '(bestMatchedRule == 0)') and e:
-                    ok = True
-        if ok:
-            r.ok('findTemplate %s branch: imports consulted only when bestMatchedRule == 0' % nm)
-        else:
-            r.violation('findTemplate %s branch: imports' % nm, 'findTemplateInImports is not guarded by "no rule of this stylesheet matched"', common.file_line(a, br))
+            r.violation('findTemplate: imports', 'findTemplateInImports is called where the rule to be returned may already be set: an imported rule replaces a matching rule of '
+                        'higher import precedence', common.file_line(a, c))
+    if n_guarded < 2:
+        r.violation('findTemplate: imports', 'only %d of the two branches fall back to the imports when nothing matched' % n_guarded, common.file_line(a))
     return r
 
 
@@ -413,7 +368,24 @@ def r5_priority(res, facts):
     if len(cr) != 1:
         raise AnalysisBroken('addTemplate: %d createXalanMatchPatternData calls' % len(cr))
     args = [pp(strip_casts(x)) for x in cr[0]['args']]
-    if 'm_patternCount' in args and any(x.startswith('data[i].getDefaultPriority') for x in args):
+    # the loop variable of the loop the call sits in, and the target-data vector it indexes (by type, not by name)
+    loopvar = None
+    for lp in walk(t['body']):
+        if lp.get('k') == 'For' and any(y is cr[0] for y in walk(lp)) and lp.get('init') is not None:
+            for y in walk(lp['init']):
+                if y.get('k') == 'Decl' and y.get('vars'):
+                    loopvar = y['vars'][0]['id']
+
+    def per_alternative(x):
+        x = strip_casts(x)
+        if not (x is not None and x.get('k') == 'MCall' and x.get('n') == 'getDefaultPriority'):
+            return False
+        o = strip_casts(x.get('obj'))
+        if o is None or not ((o.get('k') == 'OpCall' and o.get('op') == '[]') or o.get('k') == 'Index'):
+            return False
+        base, idx = (o['args'][0], o['args'][1]) if o.get('k') == 'OpCall' else (o['b'], o['i'])
+        return 'TargetData' in (strip_casts(base).get('ty') or '') and strip_casts(idx).get('k') == 'Ref' and strip_casts(idx).get('id') == loopvar
+    if 'm_patternCount' in args and any(per_alternative(x) for x in cr[0]['args']):
         inc = [x for x in walk(t['body']) if x['k'] == 'Un' and x['op'] == '++' and pp(strip_casts(x['e'])) == 'm_patternCount']
         if len(inc) == 1:
             r.ok('addTemplate: entry = (template, position m_patternCount++, data[i].getDefaultPriority())')
@@ -602,7 +574,7 @@ def r8_coverage(res, facts):
         for x in walk(a['body']):
             if x.get('k') == 'Decl':
                 for v in x.get('vars', []):
-                    if v['n'] == 'tempString':
+                    if (v.get('ty') or '').replace('xalanc_1_12::', '').strip() == 'XalanDOMString &':      # the target string of the entry being filed
                         env[v['id']] = pseudo
         m = Machine(env, call_hook=hook, global_hook=ghook)
         try:
